@@ -239,6 +239,56 @@ func gen(t *rapid.T) Case {
 	return c
 }
 
+// foreignOps: operations whose lists have elements of abstract type.
+var foreignOps = []string{
+	"{ nodes { id } }",
+	"{ us { __typename ... on A { id } ... on B { v } } s }",
+	"{ a { id } nodes { __typename id } us { __typename } }",
+	"{ nodes { id ... on A { name b { v } } } }",
+}
+
+// genForeign: lists of abstract type in which one to three elements are Go values no implementor
+// matches. The generated type switch panics inside the goroutine (and the worker slot) of each such
+// element; the operation still has to end by itself, under every worker limit, and leave nothing
+// behind - without any cancellation (point 0) as well as with one.
+func genForeign(t *rapid.T) Case {
+	var c Case
+	c.Project = "core"
+	srvs, err := kit.Servers(c.Project)
+	if err != nil {
+		t.Fatalf("harness: %v", err)
+	}
+	s := srvs[0]
+	c.Query = rapid.SampledFrom(foreignOps).Draw(t, "op")
+	c.PlanSeed = rapid.Uint64Range(1, 1<<32).Draw(t, "planseed")
+	pr, f := kit.Prepare(s, c.Case)
+	if f != nil {
+		t.Fatalf("harness: %v", f.Msg)
+	}
+	ref := kit.Reference(s, pr, c.Case.Plan())
+	var abstract []string
+	for _, el := range ref.Elems {
+		if el.Abstract && el.ListLen >= 2 {
+			abstract = append(abstract, el.Key)
+		}
+	}
+	if len(abstract) == 0 {
+		t.Skip("no list of abstract type with two elements under this plan")
+	}
+	c.Overrides = map[string]plan.Outcome{}
+	n := rapid.IntRange(1, 3).Draw(t, "nforeign")
+	for i := 0; i < n; i++ {
+		c.Overrides[abstract[rapid.IntRange(0, len(abstract)-1).Draw(t, "foreignelem")]] = plan.Outcome{Kind: plan.Foreign}
+	}
+	vfrun.Label("foreign-list-elements")
+	return c
+}
+
+// TestForeignElements: see genForeign.
+func TestForeignElements(t *testing.T) {
+	vfrun.Run(t, vfrun.Prop[Case]{Property: "C05", Name: "TestForeignElements", Gen: genForeign, Check: check}, vfrun.N(24, 400))
+}
+
 func TestCancel(t *testing.T) {
 	vfrun.Run(t, vfrun.Prop[Case]{Property: "C05", Name: "TestCancel", Gen: gen, Check: check}, vfrun.N(80, 2500))
 }
